@@ -85,7 +85,7 @@ class RouteScenario(explore.Scenario):
         w.uniq = [p.name for p in w.peers]
         w.alive = [True, True, True]
         w.names = c13.Model(3, [WELL])  # reference name table (see C13)
-        w.rules = {1: set(), 2: set()}
+        w.rules = {1: [], 2: []}     # multisets: a rule may be held twice
         w.queues = {0: [], 1: []}     # outbound, not yet consumed by the bus
         w.partial = {0: False, 1: False}
         w.sent_n = 0
@@ -132,8 +132,14 @@ class RouteScenario(explore.Scenario):
             if c == 0:
                 continue
             for ri in self.params.get('rules', (0, 1)):
-                evs.append(('rmmatch', c, ri) if ri in w.rules[c]
-                           else ('addmatch', c, ri))
+                cnt = w.rules[c].count(ri)
+                if cnt:
+                    evs.append(('rmmatch', c, ri))
+                if cnt < self.params.get('copies', 1):
+                    # (with copies=2: the same rule text added a second
+                    # time, as two subscribers in one process do; each
+                    # RemoveMatch takes one registration away)
+                    evs.append(('addmatch', c, ri))
         if w.alive[2]:
             evs.append(('disc', 2))
         return evs
@@ -305,9 +311,9 @@ class RouteScenario(explore.Scenario):
                                 % (member, RULE_TEXT[ri],
                                    [(m['type'], m['body']) for m in rep])))
                 if kind == 'addmatch':
-                    w.rules[c].add(ri)
+                    w.rules[c].append(ri)
                 else:
-                    w.rules[c].discard(ri)
+                    w.rules[c].remove(ri)
                 bad += self._not_forwarded(got, c, member)
                 return bad
             if kind == 'disc':
@@ -315,7 +321,7 @@ class RouteScenario(explore.Scenario):
                 w.alive[c] = False
                 w.names.disconnect(c)
                 w.peers[c].disconnect()
-                w.rules[c] = set()
+                w.rules[c] = []
                 got, bad = self._drain(w)
                 return bad
         except Exception as e:
@@ -662,7 +668,8 @@ def run(ctx):
         'unique names: connect / disconnect / second Hello / calls to every '
         'name ever issued, to depth %d. One search uses rules on the first '
         'argument (the empty string, a value) and a broadcast whose first '
-        'argument is empty. Long-lived bus: 254..257 / '
+        'argument is empty; one lets a connection hold a rule twice (two '
+        'AddMatch, one RemoveMatch leaves one). Long-lived bus: 254..257 / '
         '65534..65537 connections come and go between two that stay, then '
         'calls between those; messages of 2**16, 2**27-8 and exactly 2**27 '
         'bytes handed on' % (len(TEMPLATES),
@@ -694,6 +701,12 @@ def run(ctx):
                         max_depth=6, max_dev=0,
                         label='broadcasts under first-argument rules '
                               '(empty string, a value), depth 6')
+        explore.explore(ctx, RouteScenario,
+                        {'templates': [5, 10], 'max_queue': 1,
+                         'senders': [0], 'rules': (0,), 'copies': 2},
+                        max_depth=7, max_dev=0,
+                        label='one rule held up to twice per connection '
+                              '(added twice, removed once), depth 7')
         explore.explore(ctx, RouteScenario,
                         {'templates': [1, 3], 'max_queue': 1, 'senders': [0],
                          'waiters': True},
@@ -763,6 +776,12 @@ def run(ctx):
                         label='broadcasts under first-argument rules '
                               '(empty string, a value), depth 7',
                         max_states=300000)
+        explore.explore(ctx, RouteScenario,
+                        {'templates': [5, 10, 6], 'max_queue': 1,
+                         'senders': [0], 'rules': (0, 1), 'copies': 2},
+                        max_depth=8, max_dev=0,
+                        label='rules held up to twice per connection, '
+                              'depth 8', max_states=300000)
         explore.explore(ctx, NameScenario, {}, max_depth=7,
                         label='unique names, depth 7')
     from mcx import scale
